@@ -52,6 +52,7 @@ type Val struct {
 	Seq     *seqView // slice seen as a value sequence (spec functions)
 	SetSort string   // ghost set values: SMT sort (Array K Bool)
 	Tag     string   // "param:<name>" for function-typed parameters (callback contracts)
+	Boxed   *Val     // interface value made from this concrete value (MakeInterface)
 }
 
 // State is the symbolic store at a program point.
